@@ -42,6 +42,11 @@ def shrink(case, ck, sig):
     return dict(case, ops=ops)
 
 
+def is_known_open(ck, sig):
+    import re
+    return any(k.get('status', 'open') == 'open' and re.fullmatch(k['signature'], sig) for k in ck.known)
+
+
 def corpus_cases():
     d = os.path.join(os.path.dirname(os.path.dirname(os.path.abspath(__file__))), 'corpus', 'C13')
     out = []
@@ -81,6 +86,7 @@ def main(argv=None):
         all_lines += res['lines']
     model = run_driver('Blob', all_lines) if all_lines else []
     pos = 0
+    shrunk = set()
     for case, res in zip(cases, results):
         mo = model[pos: pos + len(res['lines'])]
         pos += len(res['lines'])
@@ -91,14 +97,26 @@ def main(argv=None):
         if res['nontrivial']:
             sample = dict(case=dict(case, ops=case['ops'][:10]), lines=res['lines'][:14], real=res['real'][:14])
         ck.case(case, res['nontrivial'], sample=sample)
-        if res['problems']:
-            sig, what = res['problems'][0]
+        seen, unknown = set(), 0
+        for sig, what in res['problems']:
+            if sig in seen:
+                continue
+            seen.add(sig)
+            if is_known_open(ck, sig):
+                ck.violation(sig, what, dict(case, lines=res['lines'], real=res['real']))
+                continue
+            unknown += 1
+            if sig in shrunk or len(shrunk) >= 3:
+                # enough minimised examples; record the rest as they are
+                ck.violation(sig, what, dict(case, problems=res['problems']))
+                continue
+            shrunk.add(sig)
             small = shrink(case, ck, sig)
             r2 = run_real(small, ck)
-            w2 = [w for s, w in r2['problems'] if s == sig]
+            w2 = [w for s2, w in r2['problems'] if s2 == sig]
             ck.violation(sig, w2[0] if w2 else what,
                          dict(small, problems=r2['problems'], lines=r2['lines'], real=r2['real']))
-        elif res['real'] != mo:
+        if not unknown and res['real'] != mo:
             j = [i for i in range(len(mo)) if res['real'][i] != mo[i]][0]
             ck.mismatch('model/impl differ at line %d %r: impl %s model %s'
                         % (j, res['lines'][j], res['real'][j], mo[j]),
